@@ -20,12 +20,14 @@ LABELS = {
     "str": lambda i: "s%d" % i,
     "int": lambda i: 10 + i,
     "float": lambda i: i + 0.5,
+    "float-same-floor": lambda i: (0.25, 0.5, 0.75, 1.25, 1.5, 0.125, 0.625)[i],
     "mixedwidth": lambda i: ("A", "AA", "B", "AB", "BA", "AAA", "BB")[i],
 }
 TEXT = ("A", "AB", "BA", None)       # None = the empty/missing cell
 TEXT3 = ("A", "AB", None)
 INTS = (1, 11)
 NEGS = (-1, -2, 2)        # hash(-1) == hash(-2) in CPython
+FLOATS = (1000001.0, 1000002.0, 0.1234567, 0.1234568)    # differ only beyond 6 significant digits
 
 
 def spaces(tier):
@@ -45,11 +47,11 @@ def spaces(tier):
     def gen_tables():
         # (column types, max rows)
         plans = [(("t",), 4), (("i",), 4), (("t", "t"), 3), (("t", "i"), 3 if q else 4), (("i", "i"), 4), (("t3", "t3", "t3"), 2 if q else 3), (("t3", "i", "t3"), 2 if q else 3)]
-        plans += [(("n",), 3), (("n", "t3"), 2 if q else 3), (("n", "n"), 2 if q else 3)]
+        plans += [(("n",), 3), (("n", "t3"), 2 if q else 3), (("n", "n"), 2 if q else 3), (("f",), 3), (("f", "t3"), 2), (("i", "f"), 2 if q else 3)]
         if not q:
             plans += [(("t", "t"), 4), (("i", "i", "i", "i"), 3), (("t3", "t3", "i", "i"), 2)]
         for types, maxrows in plans:
-            alph = [TEXT if t == "t" else TEXT3 if t == "t3" else NEGS if t == "n" else INTS for t in types]
+            alph = [TEXT if t == "t" else TEXT3 if t == "t3" else NEGS if t == "n" else FLOATS if t == "f" else INTS for t in types]
             rows = list(itertools.product(*alph))
             for n in range(2, maxrows + 1):
                 for table in itertools.product(rows, repeat=n):
@@ -263,6 +265,13 @@ def _check_tables2(acc, case):
             acc.fail("pc/two-tables", case, exp, r)
         else:
             acc.ok(("pct2", float(exp)), nontrivial=exp > 0)
+        # the second table may store the same named columns in another physical order
+        d2r = d2[list(d2.columns)[::-1]]
+        r = acc.call(pyrepseq.pc_joint, d1, cols, d2r)
+        if not _exact(r, exp):
+            acc.fail("pc_joint/two-tables/column-order-of-second-table", case, exp, r)
+        else:
+            acc.ok()
         for gt in (None, "|", ""):
             if gt == "" and True:
                 continue    # an empty join token is outside the property (cells could run together)
